@@ -23,6 +23,13 @@ def extra(ctx, res):
     from ._clients import DEGREE, check_filter_clients
 
     cls = "TemporalHypergraph"
+    with res.guard("G-GROUPBY in the temporal extractors"):
+        from ..lints import check_groupby_sorted
+
+        res.rules["G-GROUPBY"] = "records are grouped by time only after sorting by time (itertools.groupby merges consecutive items only)"
+        for m in ("subhypergraph", "aggregate", "get_edges"):
+            if m in ctx.methods(cls):
+                check_groupby_sorted(ctx, res, f"{cls}.{m}")
     res.rules.update({
         "P-TIMEVAL": "the record-creating store is dominated by the rejection of non-integer and of negative times",
         "M-WINDOW": "a time compared against a window is `lo <= t < hi`",
